@@ -207,9 +207,8 @@ def run(ctx):
         x = A.peel(x)
         if x[0] != "index" or A.path_str(x[1]) != "param4":
             return False
-        i = A.peel(x[2])
-        return i[0] == "field" and i[2] == "0" and A.peel(i[1])[0] == "bin" and A.peel(i[1])[1] == "SubWithOverflow" and \
-            bool(Call("len", Param(4))(A.peel(i[1])[2])) and A.peel(A.peel(i[1])[3])[2] == 1
+        i = A.arith(x[2])
+        return i is not None and i[1] == "Sub" and bool(Call("len", Param(4))(i[2])) and A.peel(i[3])[2] == 1
     for b, t in rec:
         e = zrr.call_expr(t, b)
         if len(e[2]) != 5:
@@ -223,8 +222,8 @@ def run(ctx):
         ok_rel = pr[0] == "call" and pr[1].endswith("::index") and A.path_str(pr[2][0]) == "param4" and A.peel(pr[2][1])[0] == "agg" \
             and A.peel(pr[2][1])[1] == "std::ops::Range" and A.peel(dict(A.peel(pr[2][1])[3])["start"])[2] == 0
         ok_rest = A.peel(name) == ("param", 2) and A.peel(qtype) == ("param", 3) and A.peel(apex)[0] == "const" and A.peel(apex)[2] in (False, 0)
-        end = A.peel(dict(A.peel(pr[2][1])[3])["end"]) if ok_rel else None
-        ok_end = ok_rel and end[0] == "field" and A.peel(end[1])[0] == "bin" and A.peel(end[1])[1] == "SubWithOverflow"
+        end = A.arith(dict(A.peel(pr[2][1])[3])["end"]) if ok_rel else None
+        ok_end = ok_rel and end is not None and end[1] == "Sub"
         ctx.check(ok_child and ok_rel and ok_end and ok_rest, "C02.4", "descent:recursive-call", "children[relative[len-1]].resolve(name, qtype, &relative[0..len-1], false)",
                   "recursive descent is called with (%s)" % ", ".join(A.show(x)[:70] for x in e[2]), zr.loc(b))
         okg, _ = zc.guarded(b, child_some)
@@ -271,11 +270,28 @@ def run(ctx):
             shape = sl[0] == "call" and sl[1].endswith("::index") and A.path_str(sl[2][0]) == "param2.labels"
             rng = A.peel(sl[2][1]) if shape else None
             shape = shape and rng[0] == "agg" and rng[1] == "std::ops::Range" and A.peel(dict(rng[3])["start"])[2] == 0
-            end = A.peel(dict(rng[3])["end"]) if shape else None
-            ok_end = shape and end[0] == "field" and A.peel(end[1])[0] == "bin" and A.peel(end[1])[1] == "SubWithOverflow" \
-                and bool(Call("len", Path("param2.labels"))(A.peel(end[1])[2])) and bool(Call("len", Path("param1.apex.labels"))(A.peel(end[1])[3]))
+            end = A.arith(dict(rng[3])["end"]) if shape else None
+            ok_end = shape and end is not None and end[1] == "Sub" \
+                and bool(Call("len", Path("param2.labels"))(end[2])) and bool(Call("len", Path("param1.apex.labels"))(end[3]))
             ctx.check(ok and ok_end, "C02.4", "relative_domain", "labels[0 .. len(name) - len(apex)] under is_subdomain_of(apex)",
                       "relative_domain returns %s" % A.show(e)[:150], rd.loc(b))
+    apex_rules(ctx, "C02.5")
+
+
+def apex_rules(ctx, rule):
+    """no referral is built from the apex node's own NS records (shared: C02.5, C01.8)."""
+    prog = ctx.prog
+    h = prog.fn(HELPER)
+    hr = A.Resolver(h)
+    hc = A.Conds(h, hr)
+    zr = prog.fn(ZRR)
+    zrr = A.Resolver(zr)
+    zc = A.Conds(zr, zrr)
+    results = []
+    for fn, res in ((h, hr), (zr, zrr)):
+        for b, i, st in A.aggregates(fn, Z + "ZoneResult"):
+            results.append((fn, res, b, i, st, res.rvalue(st["rv"], (b, i))))
+    helper_calls = A.call_blocks(zr, A.name_is(HELPER))
     zres = prog.fn(Z + "Zone::resolve")
     clos = [cf for cf in prog.family(Z + "Zone::resolve") if cf is not zres]
     ok = False
@@ -287,9 +303,9 @@ def run(ctx):
                 continue
             ap = A.peel(e[2][4])
             ok = A.peel(e[2][3]) == ("param", 2) and ap[0] == "const" and ap[2] in (True, 1) and A.last_field(e[2][0]) == "records"
-            ctx.check(ok, "C02.5", "Zone::resolve:starts-at-apex", "records.resolve(name, qtype, relative, at_apex = true)",
+            ctx.check(ok, rule, "Zone::resolve:starts-at-apex", "records.resolve(name, qtype, relative, at_apex = true)",
                       "Zone::resolve starts the descent with %s" % [A.show(x) for x in e[2]], cf.loc(b))
-    ctx.check(ok, "C02.5", "Zone::resolve:found", "descent entry found", "Zone::resolve does not call ZoneRecords::resolve", zres.loc())
+    ctx.check(ok, rule, "Zone::resolve:found", "descent entry found", "Zone::resolve does not call ZoneRecords::resolve", zres.loc())
 
     # ---------------------------------------------------------------- C02.5
     for fn, res, b, i, st, e in results:
@@ -300,12 +316,12 @@ def run(ctx):
             ok, _ = cc.guarded(b, lambda fc: fc[0] == "truth" and A.peel(fc[1]) == ("param", 5) and fc[2] is True)
         else:
             ok, _ = cc.guarded(b, lambda fc: fc[0] == "truth" and A.peel(fc[1]) == ("param", 5) and fc[2] is False)
-        ctx.check(ok, "C02.5", "%s:delegation-not-at-apex" % A.short(fn.key), "Delegation control-dependent on 'this is not the apex node'",
+        ctx.check(ok, rule, "%s:delegation-not-at-apex" % A.short(fn.key), "Delegation control-dependent on 'this is not the apex node'",
                   "a referral can be built from the apex node's own NS records", fn.loc(b, i))
     for b, t in helper_calls:
         e = zrr.call_expr(t, b)
         if len(e[2]) != 5:
-            ctx.bad("C02.5", "helper-call:no-flag", "zone_result_helper has no may_delegate argument", zr.loc(b))
+            ctx.bad(rule, "helper-call:no-flag", "zone_result_helper has no may_delegate argument", zr.loc(b))
             continue
         flag = A.peel(e[2][4])
         recs = A.path_str(e[2][2])
@@ -313,7 +329,7 @@ def run(ctx):
             ok = flag[0] == "un" and flag[1] == "Not" and A.peel(flag[2]) == ("param", 5)
         else:
             ok = flag[0] == "const" and flag[2] in (True, 1)
-        ctx.check(ok, "C02.5", "helper-call:%s" % ("exact" if recs == "param1.this" else "wildcard"), "may_delegate = %s" % ("!at_apex" if recs == "param1.this" else "true (wildcard set)"),
+        ctx.check(ok, rule, "helper-call:%s" % ("exact" if recs == "param1.this" else "wildcard"), "may_delegate = %s" % ("!at_apex" if recs == "param1.this" else "true (wildcard set)"),
                   "zone_result_helper called with may_delegate = %s" % A.show(flag), zr.loc(b))
     outside = [x for x in A.who_constructs(prog, Z + "ZoneResult", "Delegation") if x[0].key not in (HELPER, ZRR)]
-    ctx.check(not outside, "C02.5", "who-constructs(ZoneResult::Delegation)", "only the two lookup functions", "Delegation built in %s" % [x[0].key for x in outside])
+    ctx.check(not outside, rule, "who-constructs(ZoneResult::Delegation)", "only the two lookup functions", "Delegation built in %s" % [x[0].key for x in outside])
